@@ -23,6 +23,7 @@ type removeSite struct {
 }
 
 type pairModel struct {
+	loopPred  eng.Pred // the effect currently searched for (see loopCovers)
 	fieldBusy    map[*types.Var]bool
 	c            *Ctx
 	memMsgs      *types.Var // mem.mbox.messages
@@ -621,7 +622,7 @@ func (m *pairModel) nothingRemovedEdge(b *ssa.BasicBlock, k int, allowEnforcerOf
 		// slice range exit: !(i < len(S))
 		if r.Op == token.GEQ {
 			if s := eng.LenOf(r.Y); s != nil && m.isMsgContainer(s, 0) {
-				return true
+				return m.loopCovers(b, k)
 			}
 		}
 	}
@@ -630,12 +631,47 @@ func (m *pairModel) nothingRemovedEdge(b *ssa.BasicBlock, k int, allowEnforcerOf
 		if e, ok := v.(*ssa.Extract); ok && e.Index == 0 {
 			if nx, ok := e.Tuple.(*ssa.Next); ok {
 				if rg, ok := nx.Iter.(*ssa.Range); ok && m.isMsgContainer(rg.X, 0) {
-					return true
+					return m.loopCovers(b, k)
 				}
 			}
 		}
 	}
 	return false
+}
+
+// loopCovers: the exit edge (b,k) of a loop over removed messages means "all of them were
+// dealt with" only if no iteration can skip the effect being looked for: every path from the
+// loop body back to the loop's test passes it. Without a current effect the edge counts.
+func (m *pairModel) loopCovers(b *ssa.BasicBlock, k int) bool {
+	if m.loopPred == nil || len(b.Succs) != 2 {
+		return true
+	}
+	body := b.Succs[1-k]
+	pred := m.loopPred
+	has := false
+	for _, blk := range b.Parent().Blocks {
+		if !body.Dominates(blk) {
+			continue
+		}
+		for _, in := range blk.Instrs {
+			if pred(in) {
+				has = true
+			}
+		}
+	}
+	if !has {
+		// a loop that does something else with the removed messages: leaving it says nothing
+		// about this effect
+		return false
+	}
+	// the loop test may sit in b itself or in a header that b's back edge leads to
+	back := func(in ssa.Instruction) bool {
+		blk := in.Block()
+		return in == blk.Instrs[0] && blk.Dominates(b) && blk != body && !body.Dominates(blk)
+	}
+	m.loopPred = nil // the inner search must not recurse into this test
+	defer func() { m.loopPred = pred }()
+	return (&eng.Search{Target: back, Avoid: pred}).FromBlockStart(body) == nil
 }
 
 // removalInstrIn returns the instruction in T that performs site's removal: the site itself
@@ -675,12 +711,58 @@ type pairVerdict struct {
 
 // checkPair decides one (remove site, effect) obligation.
 func (m *pairModel) checkPair(site removeSite, effect string) pairVerdict {
+	// the effect may be complete inside the closure that removes (a critical section run by
+	// a lock gate: mb.update(func() error { emit …; clear; writeIndex }))
+	if site.fn.Parent() != nil {
+		if v := m.checkClosure(site.fn, site.in, effect); v.ok {
+			return v
+		}
+	}
 	T := eng.Outer(site.fn)
 	ri := removalInstrIn(T, site)
 	if ri == nil {
 		return pairVerdict{false, "", "cannot locate the call that runs the removing closure"}
 	}
 	return m.checkIn(T, ri, effect, 0, map[*ssa.Function]bool{})
+}
+
+// checkClosure: checkIn restricted to the closure cl itself (no lifting).
+func (m *pairModel) checkClosure(cl *ssa.Function, ri ssa.Instruction, effect string) pairVerdict {
+	var pred eng.Pred
+	allowOff := false
+	switch effect {
+	case "deleted-event":
+		pred = m.deletedEmitPred()
+	case "enforcer-account":
+		pred = m.enforcerRemovePred()
+		allowOff = true
+	default:
+		return pairVerdict{}
+	}
+	pred = m.orViaHelper(pred, allowOff)
+	saved := m.loopPred
+	m.loopPred = pred
+	defer func() { m.loopPred = saved }()
+	edgeOK := func(b *ssa.BasicBlock, k int) bool { return !m.nothingRemovedEdge(b, k, allowOff) }
+	has := false
+	for _, b := range cl.Blocks {
+		for _, in := range b.Instrs {
+			if pred(in) {
+				has = true
+			}
+		}
+	}
+	if !has {
+		return pairVerdict{}
+	}
+	p := m.c.P
+	if (&eng.Search{Target: eng.IsReturnOf(cl), Avoid: pred, Edge: edgeOK}).After(ri) == nil {
+		return pairVerdict{true, p.InstrPos(ri), fmt.Sprintf("every path from the removal (%s) to the end of the closure passes %s for the removed message(s)", p.InstrPos(ri), effect)}
+	}
+	if (&eng.Search{Target: func(in ssa.Instruction) bool { return in == ri }, Avoid: pred, Edge: edgeOK}).FromEntry(cl) == nil {
+		return pairVerdict{true, p.InstrPos(ri), fmt.Sprintf("every path from the start of the closure to the removal (%s) passes %s for the message(s) about to be removed", p.InstrPos(ri), effect)}
+	}
+	return pairVerdict{}
 }
 
 func (m *pairModel) checkIn(T *ssa.Function, ri ssa.Instruction, effect string, depth int, seen map[*ssa.Function]bool) pairVerdict {
@@ -709,6 +791,9 @@ func (m *pairModel) checkIn(T *ssa.Function, ri ssa.Instruction, effect string, 
 	edgeOK := func(b *ssa.BasicBlock, k int) bool { return !m.nothingRemovedEdge(b, k, allowOff) }
 	if effect != "enforcer-deliver" {
 		pred = m.orViaHelper(pred, allowOff)
+		saved := m.loopPred
+		m.loopPred = pred
+		defer func() { m.loopPred = saved }()
 	}
 	var effects []ssa.Instruction
 	eng.EachInstr(T, func(in ssa.Instruction) {
